@@ -129,3 +129,16 @@ def show_val(val: Optional[Dict]) -> str:
     if not val:
         return "{}"
     return "{" + ", ".join(f"{T.show(k)[:60]}={v}" for k, v in val.items()) + "}"
+
+
+def select_cases(term: T.Term, guard: T.Term):
+    """Yield (guard_value, specialised term) for every valuation of the atoms of `guard`: the value a guarded (ite) term takes
+    when the guard holds / does not hold, whichever way the conditions are nested or combined."""
+    atoms: List[T.Term] = []
+    bool_atoms(guard, atoms)
+    atoms = list(dict.fromkeys(canonical_atom(a)[0] for a in atoms))
+    for val in valuations(atoms):
+        t = term
+        for a, v in val.items():
+            t = T.assume(t, a, v)
+        yield bool_eval(guard, val), t
